@@ -487,7 +487,7 @@ def enum_programs(tier):
 
 
 def checks(tier):
-    n = {"quick": 6000, "thorough": 200000}.get(tier, 10)
+    n = {"quick": 6000, "thorough": 60000}.get(tier, 10)
     return [
         Check("enum_programs", fn_program, enum=enum_programs, reset=False, count_distinct=False),
         Check("random_programs", fn_program, strategy=programs(), examples=n, reset=False),
